@@ -346,7 +346,10 @@ def expr_samples(cname, v):
     if cname == 'RandomVariable':
         return E.RandomVariable('omega')
     if cname == 'DefineVariable':
-        return None  # the constructor always raises (obsolete class)
+        # the constructor always raises (obsolete class): a bare instance initialised as the Variable it is
+        o = object.__new__(K('DefineVariable'))
+        K('Variable').__init__(o, ['newv', 'x'][v % 2])
+        return o
     if cname == 'PowerConstant':
         return K('PowerConstant')(a, [2.0, 0.5, -1.0, 3.0][v % 4])
     if cname == 'Derive':
@@ -512,8 +515,22 @@ def setup(case):
             return r, A[old][0], A[old][1], None
         if cn == 'IdManager':
             from biogeme.expressions.idmanager import IdManager
-            im = IdManager([logit_model()], mk_db(), 10)
-            return im, (table(4 if v % 2 else 6),), {}, None
+            f = logit_model()
+            im = IdManager([f], mk_db(), 10)
+            if v % 2 == 0:
+                # set_data / set_data_map forward to `expression.cpp`, which no expression class defines:
+                # give the expression a recorder so that the call has an observable effect
+                class Rec:
+                    def __init__(self):
+                        self.calls = []
+
+                    def set_data(self, sample):
+                        self.calls.append(['set_data', list(sample.shape)])
+
+                    def set_data_map(self, sample):
+                        self.calls.append(['set_data_map', list(sample.shape)])
+                f.cpp = Rec()
+            return im, (table(4 if v % 4 >= 2 else 6),), {}, None
         raise LookupError(f'no recipe for class {cn}')
     # ---- module level
     m = importlib.import_module(mod)
@@ -592,6 +609,79 @@ def _quad_fn():
     return f
 
 
+
+# --------------------------------------------------------------- renamed keyword arguments
+def setup_kw(case):
+    """case: {'cls','mod','func','okw','nkw' (None = ignored keyword),'variant','via' (alias name or None)}
+    -> (callable-holder, func name, args, kwargs-without-the-keyword, value, post)"""
+    cls, mod, func, okw, v = case['cls'], case['mod'], case['func'], case['okw'], case['variant']
+    x, y = Variable('x'), Variable('y')
+    b1, b2, bf = betas()
+    post = None
+    if cls.endswith(':bioResults'):
+        if func == '__init__':
+            import biogeme.results as res
+            mk_results()
+            if okw == 'pickleFile':
+                return res, 'bioResults', (), {}, _RESULT_PICKLE, None
+            if okw == 'theRawResults':
+                import pickle
+                with open(_RESULT_PICKLE, 'rb') as f:
+                    raw = pickle.load(f)
+                return res, 'bioResults', (), {}, raw, None
+            raise LookupError(f'no keyword recipe for bioResults.__init__({okw})')
+        r = mk_results()
+        V = {'onlyRobust': [False, True][v % 2], 'robustStdErr': [False, True][v % 2], 'myBetas': [['b1'], ['b2', 'b1']][v % 2],
+             'useBootstrap': False}
+        base = {'get_betas_for_sensitivity_analysis': ((), {'my_betas': ['b1', 'b2'], 'size': 4, 'use_bootstrap': False})}
+        a, k = base.get(func, ((), {}))
+        k = dict(k)
+        k.pop(case['nkw'], None)
+        if okw not in V:
+            raise LookupError(f'no value recipe for keyword {okw}')
+        return r, func, a, k, V[okw], None
+    if cls.endswith(':BIOGEME'):
+        if func == '__init__':
+            from biogeme.parameters import Parameters
+            V = {'suggestScales': True, 'numberOfThreads': 2, 'numberOfDraws': 50, 'missingData': 9999, 'parameter_file': Parameters(),
+                 'userNotes': 'my notes', 'generateHtml': False, 'saveIterations': False, 'seed_param': 17}
+            if okw not in V:
+                raise LookupError(f'no value recipe for keyword {okw}')
+            k = {} if okw == 'parameter_file' else {'parameters': Parameters()}
+            return bio, 'BIOGEME', (mk_db(), logit_model()), k, V[okw], None
+        if func == 'estimate':
+            return mk_biogeme(), func, (), {}, False, None
+        if func == 'simulate':
+            return mk_biogeme(sim=True), func, (), {}, {'b1': 0.3, 'b2': -0.4}, None
+        raise LookupError(f'no keyword recipe for BIOGEME.{func}')
+    if cls.endswith(':Expression'):
+        e = [b1 * x + b2 * y, ex.exp(b1 * x) + bf, b1 * ex.MonteCarlo(ex.bioDraws('d1', 'UNIFORM') * x)][v % 3]
+        V = {'numberOfDraws': [7, 12][v % 2], 'prepareIds': True}
+        d = mk_db()
+        base = {'prepare': ((), {'database': d}), 'get_value_c': ((), {'database': d, 'prepare_ids': True, 'number_of_draws': 9}),
+                'get_value_and_derivatives': ((), {'database': d, 'prepare_ids': True, 'number_of_draws': 9}),
+                'create_function': ((), {'database': d, 'number_of_draws': 9}),
+                'create_objective_function': ((), {'database': d, 'number_of_draws': 9})}
+        if func not in base or okw not in V:
+            raise LookupError(f'no keyword recipe for Expression.{func}({okw})')
+        a, k = base[func]
+        k = dict(k)
+        k.pop(case['nkw'], None)
+        if func == 'create_function':
+            kk = n_free(e)
+
+            def post(res, recv, kk=kk):
+                return {'value': res(np.array([0.1 * (i + 1) for i in range(kk)]))}
+        if func == 'create_objective_function':
+            def post(res, recv):
+                return {'dim': res.dimension(), 'type': type(res).__name__}
+        return e, func, a, k, V[okw], post
+    if mod == 'biogeme.draws' and not cls:
+        m = importlib.import_module(mod)
+        u = np.array([0.15, 0.65, 0.35, 0.85, 0.05, 0.55][: [4, 6][v % 2]])
+        return m, func, ([2, 3][v % 2], 2), {}, u, None
+    raise LookupError(f'no keyword recipe for {cls or mod}.{func}')
+
 # --------------------------------------------------------------------------------------- run
 class SetupError(Exception):
     pass
@@ -634,15 +724,35 @@ def one_run(case, name):
         np.random.seed(case['seed'])
         random.seed(case['seed'])
         try:
-            recv, args, kwargs, post = setup(case)
+            if case.get('kind') == 'kw':
+                recv, fname, args, kwargs, value, post = setup_kw(case)
+                kwargs = dict(kwargs)
+                if name == 'old':
+                    kwargs[case['okw']] = value
+                    fname = case.get('via') or fname
+                elif case['nkw'] is not None:
+                    kwargs[case['nkw']] = value
+                name = fname
+            else:
+                recv, args, kwargs, post = setup(case)
         except LookupError:
             raise
         except Exception as e:  # noqa
             raise SetupError(f'{type(e).__name__}: {e}')
+        missing = None
         if hasattr(recv, name) or inspect.ismodule(recv):
-            target = getattr(recv, name)
+            try:
+                target = getattr(recv, name)
+            except AttributeError:
+                missing = name
         else:  # a static alias whose replacement is a function of the class' module
-            target = getattr(sys.modules[type(recv).__module__], name)
+            target = getattr(sys.modules[type(recv).__module__], name, None)
+            if target is None:
+                missing = name
+        if missing:
+            z = digest(None)
+            return {'result': digest({'missing-attribute': missing}), 'exception': z, 'state': z, 'files': z, 'logs': z,
+                    'stdout': z, 'new_files': [], 'warnings_raw': [], 'raised': True}
         before = set(os.listdir('.'))
         np.random.seed(case['seed'] + 1)
         random.seed(case['seed'] + 1)
@@ -668,7 +778,11 @@ def one_run(case, name):
         c = Canon()
         comp['result'] = digest(c.go(result))
         comp['exception'] = digest(None if exc is None else [type(exc).__module__ + '.' + type(exc).__qualname__, c.text(str(exc))])
-        state = {'args': c.go(list(args)), 'kwargs': c.go(kwargs)}
+        if case.get('kind') == 'kw':  # the keyword's own spelling is the one intended difference
+            state = {'args': c.go(list(args)), 'value': c.go(value),
+                     'kwargs': c.go({k: x for k, x in kwargs.items() if k not in (case['okw'], case['nkw'])})}
+        else:
+            state = {'args': c.go(list(args)), 'kwargs': c.go(kwargs)}
         if not inspect.ismodule(recv):
             state['receiver'] = c.go(recv)
         comp['state'] = digest(state)
@@ -731,23 +845,42 @@ def forked(fn, *a):
 
 def triple(case):
     """one round: old, new, new -> (diffs not explained by run-to-run variation, unstable paths, old run)"""
-    o = forked(one_run, case, case['old'])
-    na = forked(one_run, case, case['new'])
-    nb = forked(one_run, case, case['new'])
-    expected_w = ['DeprecationWarning', f"{case['old']} is deprecated; use {case['new']} instead."]
+    kw = case.get('kind') == 'kw'
+    o = forked(one_run, case, 'old' if kw else case['old'])
+    na = forked(one_run, case, 'new' if kw else case['new'])
+    expected_w = ['DeprecationWarning', f"{case['old']} is deprecated; use {case['new']} instead."] if not kw else None
+    raw = {k: all_diffs(o[k]['tree'], na[k]['tree']) if o[k]['h'] != na[k]['h'] else [] for k in COMPONENTS}
+    ow0 = [w for w in o['warnings_raw']]
+    suspicious = any(raw.values()) or len(ow0) != len(na['warnings_raw']) + 1
+    # the control run (replacement called a second time) is only needed when something differs
+    nb = forked(one_run, case, 'new' if kw else case['new']) if suspicious else na
     diffs, unstable = [], []
     for k in COMPONENTS:
         un = [k + p for p, _, _ in all_diffs(na[k]['tree'], nb[k]['tree'])] if na[k]['h'] != nb[k]['h'] else []
         unstable += un
-        if o[k]['h'] != na[k]['h']:
-            for p, va, vb in all_diffs(o[k]['tree'], na[k]['tree']):
-                if not any(related(k + p, u) for u in un):
-                    diffs.append({'component': k, 'at': k + p, 'old': json.dumps(va, default=str)[:200],
-                                  'new': json.dumps(vb, default=str)[:200]})
+        for p, va, vb in raw[k]:
+            if not any(related(k + p, u) for u in un):
+                diffs.append({'component': k, 'at': k + p, 'old': json.dumps(va, default=str)[:200],
+                              'new': json.dumps(vb, default=str)[:200]})
     ow = list(o['warnings_raw'])
-    n_alias = sum(1 for w in ow if w == expected_w)
-    if n_alias >= 1:
-        ow.remove(expected_w)
+    if kw:
+        # "Parameter 'old' is deprecated; use 'new=<value>' instead."  /  "... is deprecated and is ignored. ..."
+        pat = (f"Parameter '{case['okw']}' is deprecated; use '{case['nkw']}=" if case['nkw'] is not None
+               else f"Parameter '{case['okw']}' is deprecated and is ignored.")
+        hits = [w for w in ow if w[0] == 'DeprecationWarning' and w[1].startswith(pat)]
+        n_alias = len(hits)
+        if hits:
+            ow.remove(hits[0])
+        if case.get('via'):
+            wa = ['DeprecationWarning', f"{case['via']} is deprecated; use {case['func']} instead."]
+            if wa in ow:
+                ow.remove(wa)
+            else:
+                n_alias = -1
+    else:
+        n_alias = sum(1 for w in ow if w == expected_w)
+        if n_alias >= 1:
+            ow.remove(expected_w)
     if na['warnings_raw'] != nb['warnings_raw']:
         unstable.append('warnings')
     elif ow != na['warnings_raw']:
@@ -761,7 +894,7 @@ def _build_results():
     return True
 
 
-if any(c['cls'].endswith(':bioResults') or c['old'] in ('AIC_BIC_dimension', 'compileEstimationResults') for c in payload['cases']):
+if any(c['cls'].endswith(':bioResults') or c.get('old') in ('AIC_BIC_dimension', 'compileEstimationResults') for c in payload['cases']):
     try:
         forked(_build_results)
     except Exception as e:  # noqa  (reported per case as setup-failed)
@@ -771,7 +904,7 @@ results = []
 for case in payload['cases']:
     r = {'case': case}
     try:
-        if case.get('new') is None:
+        if case.get('kind') != 'kw' and case.get('new') is None:
             results.append({'case': case, 'status': 'no-replacement'})
             continue
         try:
